@@ -32,7 +32,7 @@ struct PartSpec { int r[4]; int cls; int mask; int frac; };
 
 template <class Real>
 void realizePositions(const FmmCase& c, bool dyadic, int dist, const std::vector<PartSpec>& specs,
-                      std::vector<Pos4>& out, bool noCoincident, bool interiorOnly){
+                      std::vector<Pos4>& out, bool noCoincident, bool interiorOnly, bool noCentre = false, bool exactFacesOnly = false){
     rm::Geo<Real> g(c);
     const long n = g.n;
     out.clear();
@@ -65,8 +65,11 @@ void realizePositions(const FmmCase& c, bool dyadic, int dist, const std::vector
         for(int d = 0 ; d < c.dim ; ++d){
             const bool special = (s.mask >> d) & 1;
             long double t = 0.5L;
-            const int k = (special || dist == 5) ? cls : 1;
-            const long double fr = (long double)(((s.frac * (d + 1) * 2654435761u) >> 7) % 1024 + 1) / 1026.0L;
+            int k = (special || dist == 5) ? cls : 1;
+            if(noCentre && k == 0) k = 1;
+            if(exactFacesOnly && !dyadic && k == 3) k = 4;
+            long double fr = (long double)(((s.frac * (d + 1) * 2654435761u) >> 7) % 1024 + 1) / 1026.0L;
+            if(noCentre && fr == 0.5L) fr = 514.0L / 1026.0L;
             switch(k){
             case 0: t = 0.5L; break;
             default:
@@ -91,7 +94,7 @@ void realizePositions(const FmmCase& c, bool dyadic, int dist, const std::vector
         if(!l.sound || !l.inBox){
             // fall back to the centre of the intended leaf (always unambiguous)
             for(int d = 0 ; d < c.dim ; ++d){
-                long double x = (long double)g.corner[d] + ((long double)cc[d] + 0.5L) * (long double)g.leafw[d];
+                long double x = (long double)g.corner[d] + ((long double)cc[d] + (noCentre ? 0.25L + 0.0625L * d : 0.5L)) * (long double)g.leafw[d];
                 p[d] = double(Real(x));
             }
         }
@@ -132,9 +135,10 @@ void genBox(FmmCase& c, const GenCfg& g, bool& dyadic){
         for(int d = 0 ; d < 4 ; ++d){ c.center[d] = 0.5; c.width[d] = 1; }
     }
     else if(boxClass == 1){
-        const int e0 = U(0, 13) - 6;
+        const int wd = g.widthDecades;
+        const int e0 = U(0, 2 * wd + 1) - wd;
         for(int d = 0 ; d < 4 ; ++d){
-            const int e = g.cubic ? e0 : (U(0, 2) ? e0 : U(0, 13) - 6);
+            const int e = g.cubic ? e0 : (U(0, 2) ? e0 : U(0, 2 * wd + 1) - wd);
             c.width[d] = std::ldexp(1.0, e);
             c.center[d] = double(U(0, 129) - 64) * c.width[d] / 8.0;
         }
@@ -142,9 +146,10 @@ void genBox(FmmCase& c, const GenCfg& g, bool& dyadic){
     else{
         dyadic = false;
         const double m0 = 1.0 + double(U(0, 1 << 20)) / double(1 << 20);
-        const int k0 = U(0, 13) - 6;
+        const int wd = g.widthDecades;
+        const int k0 = U(0, 2 * wd + 1) - wd;
         for(int d = 0 ; d < 4 ; ++d){
-            double w = g.cubic ? m0 * std::pow(10.0, k0) : (1.0 + double(U(0, 1 << 20)) / double(1 << 20)) * std::pow(10.0, U(0, 2) ? k0 : U(0, 13) - 6);
+            double w = g.cubic ? m0 * std::pow(10.0, k0) : (1.0 + double(U(0, 1 << 20)) / double(1 << 20)) * std::pow(10.0, U(0, 2) ? k0 : U(0, 2 * wd + 1) - wd);
             const int j = c.real == 1 ? U(0, 2) : U(0, 7);
             double u = (double(U(0, 2001)) - 1000.0) / 1000.0;
             double ctr = u * w * std::pow(10.0, j);
@@ -182,8 +187,8 @@ FmmCase genCase(const GenCfg& g){
     // keep the expected cost bounded: fewer particles on deep, high dimensional trees
     int maxN = g.maxN;
     auto specs = genSpecs(maxN);
-    if(c.real == 1) realizePositions<float>(c, dyadic, dist, specs, c.pos, g.noCoincident, g.interiorOnly);
-    else realizePositions<double>(c, dyadic, dist, specs, c.pos, g.noCoincident, g.interiorOnly);
+    if(c.real == 1) realizePositions<float>(c, dyadic, dist, specs, c.pos, g.noCoincident, g.interiorOnly, g.noCentre, g.exactFacesOnly);
+    else realizePositions<double>(c, dyadic, dist, specs, c.pos, g.noCoincident, g.interiorOnly, g.noCentre, g.exactFacesOnly);
     if(g.tsm){
         c.tsm = 1;
         const int tdist = U(0, 7);
@@ -191,8 +196,8 @@ FmmCase genCase(const GenCfg& g){
         const int rel = U(0, 4);   // 0 independent, 1 identical positions, 2 disjoint halves, 3 single leaf for one side
         if(rel == 1){ c.tpos = c.pos; }
         else{
-            if(c.real == 1) realizePositions<float>(c, dyadic, rel == 3 ? 2 : tdist, tspecs, c.tpos, g.noCoincident, g.interiorOnly);
-            else realizePositions<double>(c, dyadic, rel == 3 ? 2 : tdist, tspecs, c.tpos, g.noCoincident, g.interiorOnly);
+            if(c.real == 1) realizePositions<float>(c, dyadic, rel == 3 ? 2 : tdist, tspecs, c.tpos, g.noCoincident, g.interiorOnly, g.noCentre, g.exactFacesOnly);
+            else realizePositions<double>(c, dyadic, rel == 3 ? 2 : tdist, tspecs, c.tpos, g.noCoincident, g.interiorOnly, g.noCentre, g.exactFacesOnly);
             if(rel == 2){
                 // sources in the lower half of dimension 0, targets in the upper half (mirror when needed)
                 auto mirror = [&](std::vector<Pos4>& v, bool upper){
@@ -273,8 +278,8 @@ FmmCase genCase(const GenCfg& g){
                         [](const std::tuple<int,int,int,int,int>& t){ PartSpec s; s.r[0] = std::get<0>(t); s.r[1] = std::get<1>(t); s.r[2] = std::get<2>(t); s.r[3] = std::get<3>(t); s.cls = 1; s.mask = 0; s.frac = std::get<4>(t); return s; }));
                 std::vector<Pos4> np;
                 const int d2 = (mode == 2) ? 2 : 0;
-                if(c.real == 1) realizePositions<float>(c, dyadic, d2, mspecs, np, false, g.interiorOnly);
-                else realizePositions<double>(c, dyadic, d2, mspecs, np, false, g.interiorOnly);
+                if(c.real == 1) realizePositions<float>(c, dyadic, d2, mspecs, np, false, g.interiorOnly, g.noCentre, g.exactFacesOnly);
+                else realizePositions<double>(c, dyadic, d2, mspecs, np, false, g.interiorOnly, g.noCentre, g.exactFacesOnly);
                 for(int i = 0 ; i < nb && i < int(np.size()) ; ++i){
                     MoveOp m; m.set = set;
                     m.index = (mode >= 2) ? long(i) : long(size_t(mspecs[size_t(i)].r[3]) % base.size());
@@ -317,6 +322,7 @@ RunResult run(const std::string& name, const GenCfg& cfg, const Prop& prop,
     {
         std::ostringstream os;
         os << "seed=" << seed << " max_success=" << cases << " max_size=" << maxSize << " max_discard_ratio=20";
+        if(getenv("VERIF_NOSHRINK")) os << " noshrink=1";
         setenv("RC_PARAMS", os.str().c_str(), 1);
     }
     bool inShrink = false;
